@@ -20,6 +20,17 @@ Theorem auth_only_if_valid : forall key_ok verify siglen m data pk args,
 Proof. exact auth_only_if_valid_l. Qed.
 Print Assumptions auth_only_if_valid.
 
+(* The same for handlers that authenticate by hand through _ez_unpack_auth. *)
+Theorem ez_unpack_auth_only_if_valid : forall key_ok verify siglen m data pk args,
+  ez_unpack_auth key_ok verify siglen m data = Ok (Invoke pk args) ->
+  exists n o,
+    unpack key_ok auth_fmt data 23 = Ok (VBytes pk, o)
+    /\ siglen pk = Ok n
+    /\ verify pk (slice data None (Some (- Z.of_nat n))) (slice data (Some (- Z.of_nat n)) None) = true
+    /\ slice data None (Some (- Z.of_nat n)) ++ slice data (Some (- Z.of_nat n)) None = data.
+Proof. exact ez_unpack_auth_only_if_valid_l. Qed.
+Print Assumptions ez_unpack_auth_only_if_valid.
+
 (* The peer handed to the handler carries exactly that key. *)
 Theorem auth_peer_is_key : forall index pk,
   (forall k p, In (k, p) index -> p = k) -> peer_for index pk = pk.
